@@ -2,7 +2,8 @@
 """regenerates MANIFEST.json from lib/claims.json (one entry per claimed property)"""
 import json, os
 ROOT = os.path.dirname(os.path.dirname(os.path.abspath(__file__)))
-claims = json.load(open(os.path.join(ROOT, "lib", "claims.json")))
+import glob
+claims = {os.path.basename(f)[:-5]: json.load(open(f)) for f in glob.glob(os.path.join(ROOT, "lib", "claims", "*.json"))}
 ids = [json.loads(l)["id"] for l in open(os.path.join(ROOT, "properties.jsonl"))]
 checks, na = [], []
 for pid in ids:
